@@ -16,26 +16,27 @@ def process_level(res, tier):
     pats = {"single": [1e-3], "two": [1e-3, 1e-3], "gap": [1e-3, 0, 1e-3], "trailing-empty": [1e-3, 0], "three-unequal": [1e-3, 2e-3, 5e-4]}
     if tier == "thorough":
         pats.update({"leading-empty": [0, 1e-3], "four": [1e-3, 1e-3, 0, 1e-3]})
-    variants = [("linear", 4), ("sin", 3)] if tier == "thorough" else [("linear", 4)]
-    jobs = [(k, rf, it) for k in pats for rf, it in variants]
+    # (RF model, interpolation points, Fokker-Planck variant)
+    variants = [("linear", 4, 3), ("sin", 3, 3), ("linear", 3, 0), ("sin", 4, 1), ("linear", 2, 2)] if tier == "thorough" else [("linear", 4, 3), ("sin", 3, 0)]
+    jobs = [(k, rf, it, fp) for k in pats for rf, it, fp in variants]
 
     def do(j):
-        k, rf, it = j
-        a = base + ["--LinearRF", "true" if rf == "linear" else "false", "--InterpolationPoints", it, "-I"] + pats[k]
-        r = pl.run(exe, a, wd, out="o_%s_%s.h5" % (k, rf), timeout=600)
+        k, rf, it, fp = j
+        a = base + ["--LinearRF", "true" if rf == "linear" else "false", "--InterpolationPoints", it, "--FPType", fp, "-I"] + pats[k]
+        r = pl.run(exe, a, wd, out="o_%s_%s_%d.h5" % (k, rf, fp), timeout=600)
         doc = pl.h5(r["h5"], maxv=100000) if r["rc"] == 0 else None
         return j, r, doc
     out = {j: (r, d) for j, r, d in pl.pmap(do, jobs)}
-    for rf, it in variants:
-        ref_r, ref = out[("single", rf, it)]
+    for rf, it, fp in variants:
+        ref_r, ref = out[("single", rf, it, fp)]
         if ref is None or "error" in ref:
             res.violate("C08/process/run-failed", "single " + rf, ref_r["log"][-200:], replay=dict(cmd=ref_r["cmd"]))
             continue
         for k in pats:
             if k == "single":
                 continue
-            r, doc = out[(k, rf, it)]
-            case = "process pattern=%s rf=%s" % (k, rf)
+            r, doc = out[(k, rf, it, fp)]
+            case = "process pattern=%s rf=%s fptype=%d" % (k, rf, fp)
             rp = dict(cmd=r["cmd"], reference=ref_r["cmd"])
             if doc is None or "error" in doc:
                 res.violate("C08/process/run-failed", case, "rc=%s %s" % (r["rc"], r["log"][-200:]), replay=rp)
@@ -53,7 +54,7 @@ def process_level(res, tier):
                     res.violate("C08/process/%s/bunch-differs-from-single-bunch-run" % ("empty-bucket" if 0 in pats[k] else "filled"), case,
                                 "%s: a bunch of the train deviates from the single-bunch run by %.3g" % (name, worst), replay=rp)
                     break
-    res.bounds_done.append("process level: filling patterns %s x RF models, moments of every bunch vs the single-bunch run" % sorted(pats))
+    res.bounds_done.append("process level: filling patterns %s x {RF model, interpolation, Fokker-Planck variant}, moments of every bunch vs the single-bunch run" % sorted(pats))
 
 
 def run(res, tier):
